@@ -229,6 +229,21 @@ class Compiler:
                 error_handling=node.get("error_handling", "raise"),
                 clone=node.get("clone", False),
             )
+        if getattr(self, "_sib", False):
+            # throw-away variants derived from this very wrapper object (renamed outputs, swapped inputs, another name): deriving
+            # must not change the wrapper itself
+            try:
+                outs = list(gn.outputs)
+                ins = list(gn.inputs)
+                if outs:
+                    gn.with_outputs(**{outs[0]: outs[0] + "_decoy"})
+                if len(ins) >= 2:
+                    gn.with_inputs(**{ins[0]: ins[1], ins[1]: ins[0]})
+                elif ins:
+                    gn.with_inputs(**{ins[0]: ins[0] + "_decoy"})
+                gn.with_name(node["name"] + "_decoy")
+            except Exception:  # noqa: BLE001 - a rejected decoy is no decoy
+                pass
         for step in node.get("renames_after", []):
             # renames applied AFTER map_over was configured (the mapping configuration must follow them)
             if step.get("inputs"):
@@ -269,7 +284,12 @@ class Compiler:
         return n
 
     def graph(self, g: dict) -> Any:
-        nodes = [self.node(n) for n in g["nodes"]]
+        prev_sib = getattr(self, "_sib", False)
+        self._sib = bool(g.get("siblings"))
+        try:
+            nodes = [self.node(n) for n in g["nodes"]]
+        finally:
+            self._sib = prev_sib
         order = g.get("order")
         if order:
             nodes = [nodes[i] for i in order]
